@@ -528,17 +528,21 @@ func c18Gated(scn *c18Scn) c18Obs {
 }
 
 type c18Cli struct {
-	spec   c18Client
-	cc     *lime.ClientChannel
-	tr     lime.Transport
-	raw    net.Conn
-	rawR   *bufio.Reader
-	sid    string
-	est    bool
-	sawFin bool
-	closed bool
-	stop   chan struct{}
-	done   chan struct{}
+	atTLS      bool          // a raw peer that chose TLS, got the confirmation and does not begin the handshake
+	eof        chan struct{} // closed when the watcher of such a peer saw the connection end (or gave up)
+	eofAt      time.Time
+	eofTimeout bool
+	spec       c18Client
+	cc         *lime.ClientChannel
+	tr         lime.Transport
+	raw        net.Conn
+	rawR       *bufio.Reader
+	sid        string
+	est        bool
+	sawFin     bool
+	closed     bool
+	stop       chan struct{}
+	done       chan struct{}
 }
 
 func c18Sessions(scn *c18Scn) c18Obs {
@@ -624,6 +628,7 @@ func c18Sessions(scn *c18Scn) c18Obs {
 					_ = json.Unmarshal([]byte(line), &off)
 					_, _ = c.raw.Write([]byte(fmt.Sprintf("{\"state\":\"negotiating\",\"id\":%q,\"encryption\":\"tls\",\"compression\":\"none\"}\n", off.ID)))
 					_, _ = c.rawR.ReadString('\n')
+					c.atTLS = true
 				}
 			} else {
 				t, err := s.dial(ctx, spec.Kind)
@@ -731,6 +736,27 @@ func c18Sessions(scn *c18Scn) c18Obs {
 		time.Sleep(time.Duration(scn.DelayUs) * time.Microsecond)
 	}
 	s.addPending()
+	// a peer that sits at the in-place TLS upgrade is let go at once when the server is closed (the handshake runs
+	// under the server's context), not at the end of some poll interval: watched from before the Close
+	var closeAt time.Time
+	for _, c := range clis {
+		if c != nil && c.raw != nil && c.atTLS {
+			c.eof = make(chan struct{})
+			go func(c *c18Cli) {
+				defer close(c.eof)
+				_ = c.raw.SetReadDeadline(time.Now().Add(8 * time.Second * slack))
+				for {
+					if _, err := c.rawR.ReadString('\n'); err != nil {
+						var ne net.Error
+						c.eofTimeout = errors.As(err, &ne) && ne.Timeout()
+						c.eofAt = time.Now()
+						return
+					}
+				}
+			}(c)
+		}
+	}
+	closeAt = time.Now()
 	s.closeServing()
 	s.result(&o, 15*time.Second*slack)
 	cwg.Wait()
@@ -744,6 +770,16 @@ func c18Sessions(scn *c18Scn) c18Obs {
 		if c.spec.Phase == "racing" {
 			close(c.stop)
 			<-c.done
+		}
+		if c.raw != nil && c.eof != nil {
+			<-c.eof
+			late := c.eofAt.Sub(closeAt)
+			c.closed = !c.eofTimeout && late <= 2500*time.Millisecond+150*time.Millisecond*slack
+			if !c.eofTimeout && !c.closed {
+				o.Note += fmt.Sprintf("a peer at the TLS upgrade was let go only %v after Close; ", late.Round(100*time.Millisecond))
+			}
+			_ = c.raw.Close()
+			continue
 		}
 		if c.raw != nil {
 			_ = c.raw.SetReadDeadline(time.Now().Add(8 * time.Second * slack))
